@@ -36,10 +36,11 @@ struct Obj {
 	bool broken = false;                // a violation left model and object out of sync: stop judging it
 	int from_file_chain = 0;            // how many write/read hops lie behind this object
 	std::map<std::string, Q> saved_obj;  // objective coefficients put aside by `chgobj save=1` (restored by `chgobj v=@`)
+	bool repairable_names = true;       // every name is a plain token or one of the generator's repair-needing names (objects read from damaged files can carry anything)
 	bool has_sos = false;               // read from a file with SOS sets (the round-trip laws of C08/C09 do not speak about those)
 };
 
-struct FileInfo { std::string kind = "prob", fmt; LP model; bool damaged = false, precond = false, foreign = false, sos = false, hit = false /* a damage op or a destructive fault touched the bytes */; int chain = 0; std::string cstat, rstat; };
+struct FileInfo { std::string kind = "prob", fmt; LP model; bool damaged = false, precond = false, structural = false /* precondition of C08 without the demand that names need no repair */, foreign = false, sos = false, hit = false /* a damage op or a destructive fault touched the bytes */; int chain = 0; std::string cstat, rstat; };
 
 struct Client { std::vector<std::shared_ptr<Obj>> objs; std::vector<StoredBasis> bases; };
 
@@ -72,7 +73,7 @@ private:
 	std::string last_fbasis_path; bool last_fbasis_valid = false;
 	std::string io_path(const Op *o, const char *fmt_ext);
 	void arm_file_faults(const std::string &path);
-	bool roundtrip_precondition(const LP &m);
+	bool roundtrip_precondition(const LP &m, bool names_too = true);
 	std::string roundtrip_diff(const LP &want, const LP &got, bool native_ranges);
 	std::map<std::string, RefResult> ref_cache;
 	struct Outcome { std::string how, config; int status; Q value; int step; std::string note; };
